@@ -199,6 +199,14 @@ theorem gl_history_independent (rnd cospi : Rat → Rat) (eps : Rat) (fuel : Nat
     (glSeq rnd cospi eps fuel (pre ++ (n, a, b) :: post))[pre.length]? = some (glRule rnd cospi eps fuel n a b) := by
   simp [glSeq]
 
+/-- the same for the integrating overload: the value at a position of any call sequence is the value of
+    that call alone, and equals the rule-taking overload on the rule of its own `(n, a, b)` -/
+theorem integ_history_independent (f : Rat → Rat) (z pp : Nat → Nat → Rat)
+    (pre post : List (Nat × Rat × Rat)) (n : Nat) (a b : Rat) :
+    (integSeq f z pp (pre ++ (n, a, b) :: post))[pre.length]?
+      = some (integrateGLrule f (glAssemble n a b (z n) (pp n))) := by
+  simp [integSeq, integrateGL]
+
 /-! ## [T2] the coded recurrence, its derivative, the middle root, n = 1 -/
 
 -- `legendre_derivative`, `legendre_odd_zero`, `newton_middle_root`, `gl_exact_n1` (Legendre.lean), `gl_n2_defect` (N2.lean) are in
